@@ -384,6 +384,12 @@ Proof.
   - (* OThrow *) simpl. intros; lia.
   - (* OMakePassive *) intros _. apply OI_upd_other; auto.
   - (* OMakeActive *) intros _. apply OI_upd_other; auto.
+  - (* OInvalidate *)
+    destruct (c_out (cfg k) && true) eqn:Hc; auto.
+    destruct (n_val (node_at k g)); intros _; apply OI_emit; auto.
+    apply OI_notify_from; auto.
+    + intros m c Hm. apply cfgs_nth_error; auto.
+    + apply OI_upd_other; auto.
   - (* ONop *) auto.
 Qed.
 
@@ -834,6 +840,7 @@ Proof.
   - apply (start_ok_same_core k g); [repeat split|auto].
   - apply start_ok_upd_other; auto.
   - apply start_ok_upd_other; auto.
+  - replace (c_out (cfg k) && false) with false by (destruct (c_out (cfg k)); auto). auto.
   - auto.
 Qed.
 
@@ -1222,6 +1229,8 @@ Proof.
   - reflexivity.
   - apply runs_upd; auto.
   - apply runs_upd; auto.
+  - destruct (_ && _); auto. destruct (n_val (node_at i g)); auto.
+    rewrite node_at_emit, node_at_notify. apply runs_upd; auto.
   - reflexivity.
 Qed.
 
@@ -1311,6 +1320,25 @@ Proof.
   - split; [split; [discriminate|congruence]|]. split; [discriminate|]. split; auto. discriminate.
 Qed.
 
+(* an invalidation withdraws the value: from then on (until the next write) every input bound to the
+   output reads "not valid", so [ready] fails for every consumer that requires it *)
+Lemma invalidate_withdraws cfgs i opi g :
+  g_err g = 0 -> c_out (nth i cfgs dflt_cfg) = true -> (i < length (g_nodes g))%nat ->
+  n_val (node_at i (do_op cfgs i true opi OInvalidate g)) = None.
+Proof.
+  intros He Hc Hi. unfold do_op. rewrite He. simpl. rewrite Hc. simpl.
+  destruct (n_val (node_at i g)) eqn:Ev.
+  - rewrite node_at_emit, node_at_notify. rewrite node_at_upd_same by auto. reflexivity.
+  - rewrite node_at_emit. exact Ev.
+Qed.
+
+Lemma invalid_input_blocks_user_code c g s :
+  In s (c_ins c) -> (c_vmode c = 0 \/ i_req s = true) -> n_val (node_at (i_src s) g) = None -> ready c g = false.
+Proof.
+  intros Hs Hr Hn. destruct (ready c g) eqn:E; auto.
+  exfalso. apply (proj1 (ready_iff c g) E s Hs Hr). exact Hn.
+Qed.
+
 (* ------------------------------------------------------------------ *)
 (* The forward scan: at most once per cycle, producers first (C01)      *)
 (* ------------------------------------------------------------------ *)
@@ -1337,6 +1365,8 @@ Proof.
   - reflexivity.
   - apply node_at_upd_node_other; auto.
   - apply node_at_upd_node_other; auto.
+  - destruct (_ && _); auto. destruct (n_val (node_at i g)); auto.
+    rewrite node_at_emit, node_at_notify. apply node_at_upd_node_other; auto.
   - reflexivity.
 Qed.
 
@@ -1381,6 +1411,8 @@ Proof.
   - reflexivity.
   - apply U; auto.
   - apply U; auto.
+  - destruct (_ && _); auto. destruct (n_val (node_at i g)); auto.
+    rewrite node_at_emit, node_at_notify. apply U; auto.
   - reflexivity.
 Qed.
 
@@ -1435,6 +1467,7 @@ Proof.
   - reflexivity.
   - apply len_upd_node.
   - apply len_upd_node.
+  - destruct (_ && _); auto. destruct (n_val (node_at i g)); auto. simpl. rewrite len_notify. apply len_upd_node.
   - reflexivity.
 Qed.
 
@@ -1631,6 +1664,20 @@ Proof.
     unfold wrote. rewrite node_at_upd_same by lia. reflexivity.
   - split; [auto|]. split; [auto|]. split; [auto|left]. split; [reflexivity|].
     unfold wrote. rewrite node_at_upd_same by lia. reflexivity.
+  - (* OInvalidate: with a value it notifies exactly like a write *)
+    destruct (c_out _ && true) eqn:Eo; [|repeat split; auto].
+    destruct (n_val (node_at i g)) eqn:Ev; [|repeat split; auto].
+    set (g1 := upd_node i (set_inv (g_now g)) g).
+    assert (L1 : length (g_slots g1) = n) by (unfold g1; auto).
+    split; [|split; [auto|split; [auto|right]]].
+    + unfold emit; simpl. clear - L1. assert (G : forall l j src g0, length (g_slots (notify_from l j src g0)) = length (g_slots g0)).
+      { induction l as [|c r IH]; intros j src g0; simpl; auto. rewrite IH. destruct (_ && _); auto. apply schedule_node_len. }
+      rewrite G. exact L1.
+    + split.
+      * unfold wrote. rewrite node_at_emit, node_at_notify. unfold g1. rewrite node_at_upd_same by lia. simpl.
+        rewrite notify_from_now. simpl. lia.
+      * unfold slot_at at 1. simpl g_slots. fold (slot_at k (notify_from cfgs 0 i g1)).
+        rewrite notify_slots_all; auto. unfold act_from, g1. rewrite node_at_upd_node_other by auto. reflexivity.
   - repeat split; auto.
 Qed.
 
@@ -1734,6 +1781,7 @@ Proof.
   - reflexivity.
   - reflexivity.
   - reflexivity.
+  - destruct (_ && _); auto. destruct (n_val (node_at i g)); auto. simpl. rewrite slen_notify. reflexivity.
   - reflexivity.
 Qed.
 
@@ -1946,6 +1994,7 @@ Proof.
   - simpl. lia.
   - exact H.
   - exact H.
+  - destruct (_ && _); auto. destruct (n_val (node_at i g)); auto. simpl. apply ne9_notify. exact H.
   - exact H.
 Qed.
 
